@@ -202,10 +202,33 @@ pub fn model_pred(p: &Pred, ev: &MEv) -> bool {
     }
 }
 
+/// A nested emission the model came across (classification only).
+#[derive(Clone, Debug)]
+pub struct NestFact {
+    /// number of emissions in flight around it: 1 = emitted from inside the outermost emission, 2 = from
+    /// inside a nested emission, ... (0 = from a leaf that was handed the event directly)
+    pub depth: usize,
+    pub via: Via,
+    /// entry kinds (macro?) of the emissions in flight around it, outermost first
+    pub around: Vec<bool>,
+    pub uses_when: bool,
+    pub accepted: bool,
+    /// the emitting leaf is a filter leaf logging its decision (whether it is evaluated is don't-care)
+    pub from_filter: bool,
+}
+
 #[derive(Default, Debug)]
 pub struct Expect {
     /// per destination leaf id: the multiset of events it must receive
     pub emits: BTreeMap<u32, Vec<MSnap>>,
+    /// per AUDIT filter leaf id: the deliveries ONE evaluation of that leaf causes in its audit runtime
+    /// (how often a filter leaf is evaluated is don't-care, so these are owed per OBSERVED evaluation)
+    pub per_eval: BTreeMap<u32, BTreeMap<u32, Vec<MSnap>>>,
+    /// entry kinds (macro or not) of the emissions in flight at the point the model is at
+    pub chain: Vec<bool>,
+    /// the model is inside what ONE evaluation of an audit filter leaf causes (happens only if evaluated)
+    pub under_filter_leaf: bool,
+    pub nested: Vec<NestFact>,
     /// per filter leaf id: the event(s) it may have been evaluated on
     pub filter_may_see: BTreeMap<u32, Vec<MSnap>>,
     /// per filter leaf id: the verdict its predicate has on each of those events (same order)
@@ -219,6 +242,31 @@ pub fn eval_f(f: &FS, ev: &MEv, out: &mut Expect) -> bool {
             let v = model_pred(pred, ev);
             out.filter_may_see.entry(*id).or_default().push(ev.snap());
             out.filter_verdicts.entry(*id).or_default().push(v);
+            v
+        }
+        // a leaf that logs its decision: the verdict is the predicate's; one evaluation emits the event it
+        // was handed into the audit runtime (an emission like any other) when `on` fires
+        FS::Audit { id, pred, on, fwd } => {
+            let v = model_pred(pred, ev);
+            out.filter_may_see.entry(*id).or_default().push(ev.snap());
+            out.filter_verdicts.entry(*id).or_default().push(v);
+            if on.fires(v) {
+                let mut sub = Expect {
+                    chain: out.chain.clone(),
+                    under_filter_leaf: true,
+                    ..Expect::default()
+                };
+                nested_emit(fwd, ev, true, &mut sub);
+                for (id, v) in sub.filter_may_see {
+                    out.filter_may_see.entry(id).or_default().extend(v);
+                }
+                for (id, v) in sub.filter_verdicts {
+                    out.filter_verdicts.entry(id).or_default().extend(v);
+                }
+                out.per_eval.extend(sub.per_eval);
+                out.nested.extend(sub.nested);
+                out.per_eval.insert(*id, sub.emits);
+            }
             v
         }
         FS::FnPtr(k) => {
@@ -263,6 +311,71 @@ pub fn through_runtime(ev: &MEv, ambient: &[MP], clock: Option<Ts>) -> MEv {
     ev
 }
 
+/// What the nested entry point makes of the event the leaf was handed, BEFORE the target runtime sees it.
+pub fn via_own(via: Via, a: i64, ev: &MEv) -> MEv {
+    let mut own = ev.clone();
+    let front = |own: &mut MEv, k: &'static str, v: String| own.props.insert(0, MP { k, v, grp: 0 });
+    match via {
+        Via::Core | Via::RtEmit | Via::RtAsEmitter | Via::MacroEvt => {}
+        Via::MacroEvtTpl => own.parts = vec![MPart::Text("fwd override")],
+        Via::MacroTpl(site) => {
+            if site % VIA_TPL_SITES == 0 {
+                own.parts = vec![MPart::Text("fwd plain")];
+            } else {
+                // captured properties first, then the base `props:`
+                own.parts = vec![MPart::Text("fwd "), MPart::Hole("a")];
+                front(&mut own, "a", a.to_string());
+            }
+        }
+        // "the level macros … attach a level to the event" as the well-known `lvl` property, captured
+        // like any other property of the call site (so in front of the base props)
+        Via::Level(l) => {
+            own.parts = vec![MPart::Text("leveled")];
+            front(&mut own, key(KEY_LVL), LEVEL_NAMES[l as usize % 4].to_string());
+        }
+    }
+    own
+}
+
+/// A nested emission is an emission like any other: the target runtime's clock fills in a missing extent,
+/// its ambient props follow the event's, the effective filter (call-site filter when the entry point
+/// carries one, else the target runtime's) decides, and each destination receives the event exactly once.
+pub fn nested_emit(fw: &FwdSpec, ev: &MEv, from_filter: bool, out: &mut Expect) {
+    let own = via_own(fw.via, fw.a, ev);
+    let amb: Vec<MP> = fw
+        .ctxt
+        .iter()
+        .map(|(k, v)| MP {
+            k: key(*k),
+            v: v.text(),
+            grp: 0,
+        })
+        .collect();
+    let full = through_runtime(&own, &amb, fw.clock);
+    let around = out.chain.clone();
+    out.chain.push(fw.via.is_macro());
+    let accepted = if fw.uses_when() {
+        // whether the target runtime's own filter is consulted at all is don't-care; if it is, it can
+        // only be handed the same event (eval_f only registers what leaves MAY see / cause per evaluation)
+        let _ = eval_f(&fw.filter, &full, out);
+        eval_f(fw.when.as_ref().unwrap(), &full, out)
+    } else {
+        eval_f(&fw.filter, &full, out)
+    };
+    out.nested.push(NestFact {
+        depth: around.len(),
+        via: fw.via,
+        around,
+        uses_when: fw.uses_when(),
+        accepted,
+        from_filter: from_filter || out.under_filter_leaf,
+    });
+    if accepted {
+        deliver(&fw.emitter, &full, out);
+    }
+    out.chain.pop();
+}
+
 /// Deliveries of a destination tree for an event handed to it.
 pub fn deliver(e: &ES, ev: &MEv, out: &mut Expect) {
     match e {
@@ -305,6 +418,7 @@ pub fn deliver(e: &ES, ev: &MEv, out: &mut Expect) {
             }
             _ => unreachable!("core() peels the reference layers"),
         },
+        ES::Fwd(fw) => nested_emit(fw, ev, false, out),
         // Runtime::emit: "1. assign an extent using Clock::now if the event doesn't already have one.
         // 2. Add Ctxt::Current to the event properties. 3. Ensure the event passes Filter::matches.
         // 4. Emit the event through Emitter::emit." — with the nested runtime's own components.
@@ -353,6 +467,8 @@ pub fn flush(e: &ES, reach: &mut Vec<u32>) -> bool {
         // "Flushing defers to the wrapped emitter."
         ES::Wrap(a, _) => flush(a, reach),
         ES::Rt { emitter, .. } => flush(emitter, reach),
+        // the harness's forwarding leaf flushes the destination it forwards into
+        ES::Fwd(fw) => flush(&fw.emitter, reach),
     }
 }
 
@@ -503,19 +619,16 @@ impl Model {
         let uses_when = c.entry.is_macro() && c.when.is_some();
         let effective: &FS = if uses_when { c.when.as_ref().unwrap() } else { &c.filter };
 
-        let mut main = Expect::default();
+        let mut main = Expect {
+            chain: vec![c.entry.is_macro()],
+            ..Expect::default()
+        };
         let accepted = eval_f(effective, &full, &mut main);
         if uses_when {
             // the runtime's own filter is not the effective one; whether it is evaluated at all is
-            // don't-care, but if it is, it can only be handed the same event
-            let mut ignored = Expect::default();
-            let _ = eval_f(&c.filter, &full, &mut ignored);
-            for (id, v) in ignored.filter_may_see {
-                main.filter_may_see.entry(id).or_default().extend(v);
-            }
-            for (id, v) in ignored.filter_verdicts {
-                main.filter_verdicts.entry(id).or_default().extend(v);
-            }
+            // don't-care, but if it is, it can only be handed the same event (eval_f only registers what
+            // leaves MAY see and what one evaluation of an audit leaf causes)
+            let _ = eval_f(&c.filter, &full, &mut main);
         }
         if accepted {
             deliver(&c.dest, &full, &mut main);
